@@ -345,6 +345,75 @@ pub fn spellings_for(c: char) -> Vec<Spelling> {
     out
 }
 
+// ------------------------------------------------------------------------- directive matrix (shared)
+
+/// Small grammars Root -> A -> B in which A and B carry every subset of the directives that interact through
+/// the parse state (position, memoize, no_skip_ws, a pure refusing check; B also as @string): pairs and
+/// triples of directives on one rule are exactly what conditional "optimisations" key on.
+pub fn directive_matrix(b: &mut Builder, family: &str, tier: Tier) {
+    let roots = vec![
+        seq(vec![field("a", "A"), opt(field("b", "B")), opt(lit("c"))]),
+        choice(vec![seq(vec![field("a", "A"), lit("c")]), seq(vec![star(field("b", "B")), opt(field("a", "A"))])]),
+        seq(vec![star(seq(vec![field("a", "A"), opt(lit("c"))])), Expr::Eoi]),
+    ];
+    let a_body = seq(vec![field("x", "B"), opt(seq(vec![lit("c"), field("y", "B")]))]);
+    let b_body = seq(vec![lit("b"), opt(lit("b"))]);
+    let inputs = InputSpec::Strings { alphabet: vec!['b', 'c', ' '], max_len: if tier == Tier::Quick { 4 } else { 5 } };
+    let chk = Directive::Check(vec!["hrt".into(), "user".into(), "chk_nob2".into()]);
+    for (ri, r) in roots.iter().enumerate() {
+        for amask in 0u32..16 {
+            for bmask in 0u32..16 {
+                // quick: every pair of directive sets that differ from the default in at most 3 places
+                if tier == Tier::Quick && (amask.count_ones() + bmask.count_ones()) > 3 {
+                    continue;
+                }
+                let mut ad = Vec::new();
+                if amask & 1 != 0 {
+                    ad.push(Directive::Position);
+                }
+                if amask & 2 != 0 {
+                    ad.push(Directive::Memoize);
+                }
+                if amask & 4 != 0 {
+                    ad.push(Directive::NoSkipWs);
+                }
+                if amask & 8 != 0 {
+                    ad.push(chk.clone());
+                }
+                let mut bd = Vec::new();
+                if bmask & 1 != 0 {
+                    bd.push(Directive::Position);
+                }
+                if bmask & 2 != 0 {
+                    bd.push(Directive::Memoize);
+                }
+                if bmask & 4 != 0 {
+                    bd.push(Directive::NoSkipWs);
+                }
+                if bmask & 8 != 0 {
+                    bd.push(Directive::String);
+                }
+                for root_noskip in [false, true] {
+                    let mut rd = vec![Directive::Export, Directive::Position];
+                    if root_noskip {
+                        rd.push(Directive::NoSkipWs);
+                    }
+                    let g = Grammar {
+                        rules: vec![
+                            Rule::normal("Root", rd, r.clone()),
+                            Rule::normal("A", ad.clone(), a_body.clone()),
+                            Rule::normal("B", bd.clone(), b_body.clone()),
+                        ],
+                    };
+                    if wf::well_formed(&g) {
+                        b.add(&format!("{family}/root{ri}"), g, inputs.clone());
+                    }
+                }
+            }
+        }
+    }
+}
+
 // ------------------------------------------------------------------------------------------- C02
 
 pub fn c02_leaves() -> Vec<Rule> {
@@ -432,6 +501,7 @@ pub fn c02(tier: Tier) -> Vec<Case> {
             add_if_wf(&mut b, "varying-counts", g, &spec);
         }
     }
+    directive_matrix(&mut b, "directive-matrix", tier);
     // override family: Root = r:R with R an override rule (plain overrides cannot be exported)
     for e in trees(&over_atoms, &NO_LOOKAHEAD_OPS, k_over) {
         let mut rules = vec![Rule::normal("R", vec![Directive::NoSkipWs], e.clone())];
@@ -526,6 +596,27 @@ pub fn c04(tier: Tier) -> Vec<Case> {
             add_if_wf(&mut b, if noskip { "utf8/no_skip_ws" } else { "utf8/skip" }, g, &inputs);
         }
     }
+    // long multi-byte inputs
+    {
+        let mut linputs: Vec<String> = Vec::new();
+        for n in long_counts(Tier::Quick) {
+            linputs.push("é".repeat(n));
+            linputs.push(format!("{}a", "€😀".repeat(n / 2)));
+            linputs.push(format!("{}é", "a".repeat(n)));
+            linputs.push(format!("{}\u{212A}", "k".repeat(n)));
+        }
+        let spec = InputSpec::List(linputs);
+        for e in [
+            seq(vec![star(lit("é")), opt(field("c", "char"))]),
+            seq(vec![star(range('à', 'ë')), star(field("s", "S"))]),
+            seq(vec![star(ilit("k")), opt(ilit("ki")), star(field("c", "char"))]),
+            seq(vec![star(choice(vec![lit("€"), lit("😀"), range('a', 'é')])), Expr::Eoi]),
+            star(field("t", "T")),
+        ] {
+            let g = root_grammar(vec![Directive::Export, Directive::Position, Directive::NoSkipWs], e, &leaves);
+            add_if_wf(&mut b, "utf8/long-inputs", g, &spec);
+        }
+    }
     // the guard itself: non-ASCII case-insensitive literals must be rejected by the compiler; if a changed
     // compiler accepts them, the generated parser is run and judged like every other one
     for l in ["é", "ä", "aé", "éa", "\u{e9}k", "ÿ", "Â"] {
@@ -543,6 +634,7 @@ pub fn c04(tier: Tier) -> Vec<Case> {
 
 pub fn c08(tier: Tier) -> Vec<Case> {
     let mut b = Builder::new();
+    directive_matrix(&mut b, "ws/directive-matrix", tier);
     // long whitespace runs between and around two tokens, with the built-in skipper
     {
         let mut inputs: Vec<String> = Vec::new();
@@ -661,6 +753,40 @@ pub fn c08(tier: Tier) -> Vec<Case> {
 
 pub fn c09(tier: Tier) -> Vec<Case> {
     let mut b = Builder::new();
+    directive_matrix(&mut b, "pos/directive-matrix", tier);
+    // positions at large offsets
+    {
+        let mut inputs: Vec<String> = Vec::new();
+        for n in long_counts(tier) {
+            inputs.push(format!("{}c", "b".repeat(n)));
+            inputs.push(format!("{}b", "é ".repeat(n)));
+            inputs.push(format!("{}bc", " ".repeat(n)));
+        }
+        let spec = InputSpec::List(inputs);
+        for e in [
+            seq(vec![star(field("f", "X")), opt(field("s", "S"))]),
+            seq(vec![star(choice(vec![field("s", "S"), field("f", "X")])), Expr::Eoi]),
+            seq(vec![star(lit("é")), star(field("f", "X")), opt(field("n", "N"))]),
+        ] {
+            for memo in [false, true] {
+                let p = |extra: Vec<Directive>| {
+                    let mut v = vec![Directive::Position];
+                    v.extend(extra);
+                    if memo {
+                        v.push(Directive::Memoize);
+                    }
+                    v
+                };
+                let leaves = vec![
+                    Rule::normal("X", p(vec![]), seq(vec![lit("b"), opt(lit("c"))])),
+                    Rule::normal("S", p(vec![Directive::String]), seq(vec![lit("é"), opt(lit("b"))])),
+                    Rule::normal("N", p(vec![]), seq(vec![lit("c"), field("x", "X"), opt(field("t", "S"))])),
+                ];
+                let g = root_grammar(vec![Directive::Export, Directive::Position], e.clone(), &leaves);
+                add_if_wf(&mut b, "pos/long-inputs", g, &spec);
+            }
+        }
+    }
     let (k, len) = match tier {
         Tier::Quick => (3, 4),
         Tier::Thorough => (4, 5),
